@@ -692,6 +692,27 @@ static void apply(const Op& op, void*& h, std::unique_ptr<SoPlex>& mp, const St&
    {
       int need = op.fn == GET_DUAL_REAL ? s.m : s.n;
       int dim = need + (v ? 2 : 0);
+      // SoPlexBase::getPrimalReal/getDualReal/getRedCostReal(R*, int) test "dim >= numCols()" but copy the WHOLE stored solution vector.  After a
+      // rational solve that ends INFEASIBLE/UNBOUNDED the stored vectors keep the dimension of the transformed LP (numCols()+1 ...), so the C
+      // function - like the C++ call - writes past an array of exactly dim entries.  Executing that would corrupt the heap of the worker (and
+      // ASan reports a faulty instruction only once per process), so the call is not made: the length the getter is going to copy is read
+      // from the mirror and the overflow is recorded as the verdict.  Reproduced standalone through the C interface (see known_findings.json).
+      {
+         int stored = -1;
+         if(M.hasSol())
+         {
+            if(M._hasSolReal) stored = op.fn == GET_PRIMAL_REAL ? M._solReal._primal.dim() : op.fn == GET_DUAL_REAL ? M._solReal._dual.dim() : M._solReal._redCost.dim();
+            else if(M._hasSolRational) stored = op.fn == GET_PRIMAL_REAL ? M._solRational._primal.dim() : op.fn == GET_DUAL_REAL ? M._solRational._dual.dim() : M._solRational._redCost.dim();
+         }
+         if(stored > dim)
+         {
+            P << "dim=" << dim << ") not executed";
+            st.compared++;
+            st.mismatch("getter-writes-past-caller-array", std::string("the call would copy ") + std::to_string(stored) + " values into the caller's array of dim=" + std::to_string(dim)
+                        + " entries (" + std::to_string(need) + " are needed): the stored solution vector is longer than the LP dimension (status " + std::to_string((int)M.status()) + ")");
+            break;
+         }
+      }
       Blk<double> out(dim, -777.25); g_blocks++;
       std::vector<double> exp(dim, -777.25);
       run_pair(st, [&]
